@@ -46,7 +46,7 @@ func genC19(t *rapid.T) c19Case {
 		case "holder":
 			s.Early = rapid.IntRange(0, 4).Draw(t, "early") == 0
 		case "ok", "fail":
-			s.Cmd = rapid.IntRange(0, 5).Draw(t, "cmd")
+			s.Cmd = rapid.IntRange(0, 23).Draw(t, "cmd") // reduced modulo the number of commands of its kind
 		case "lock":
 			s.Lock = rapid.SampledFrom([]string{"dead-pid", "live-foreign-pid", "own-dead-child", "empty", "garbage", "too-long"}).Draw(t, "lock")
 		}
@@ -55,7 +55,7 @@ func genC19(t *rapid.T) c19Case {
 	c.Steps = rapid.SliceOfN(one, 4, 12).Draw(t, "steps")
 	// the non-trivial shape: a refusal while a holder lives, a kill, a recovery
 	if rapid.IntRange(0, 2).Draw(t, "planned") > 0 {
-		plan := []c19Step{{Kind: "holder"}, {Kind: "ok", Cmd: 1}, {Kind: "fail", Cmd: 0}, {Kind: "stop", Signal: rapid.SampledFrom([]string{"KILL", "KILL", "KILL", "TERM", "INT"}).Draw(t, "psig")}, {Kind: "ok", Cmd: 0}}
+		plan := []c19Step{{Kind: "holder"}, {Kind: "ok", Cmd: 1}, {Kind: "fail", Cmd: rapid.IntRange(0, 7).Draw(t, "pfail")}, {Kind: "ok", Cmd: rapid.IntRange(0, 5).Draw(t, "pok")}, {Kind: "stop", Signal: rapid.SampledFrom([]string{"KILL", "KILL", "KILL", "TERM", "INT"}).Draw(t, "psig")}, {Kind: "ok", Cmd: 0}}
 		at := rapid.IntRange(0, len(c.Steps)).Draw(t, "at")
 		out := append([]c19Step(nil), c.Steps[:at]...)
 		out = append(out, plan...)
@@ -213,7 +213,9 @@ func runC19(tb report.TB, rep *report.Reporter, c c19Case) {
 	}
 	// commands that succeed (given an identity) and commands that fail after the repository was loaded
 	okCmds := [][]string{{"bug"}, {"bug", "new", "-t", "another", "-m", "m", "--non-interactive"}, {"user"}, {"label"}, {"bug", "-f", "id"}, {"bug", "status:open"}}
-	failCmds := [][]string{{"bug", "show", "ffffffffffffff"}, {"bug", "rm"}, {"bug", "status", "close", "zzzz"}, {"bug", "comment", "new", "0000000", "-m", "x", "--non-interactive"}, {"bug", "sort:nonsense"}, {"bug", "title", "edit", "1234567", "-t", "t", "--non-interactive"}}
+	failCmds := [][]string{{"bug", "show", "ffffffffffffff"}, {"bug", "rm"}, {"bug", "status", "close", "zzzz"}, {"bug", "comment", "new", "0000000", "-m", "x", "--non-interactive"}, {"bug", "sort:nonsense"}, {"bug", "title", "edit", "1234567", "-t", "t", "--non-interactive"},
+		// what the shell runs when the user presses TAB: these completions open the repository too
+		{"__complete", "bug", "author:"}, {"__complete", "bug", "label:"}}
 	refsOf := func() string { return RunGit(dir, "for-each-ref").Out }
 
 	refusals, recoveries, kills, holderDied := 0, 0, 0, 0
@@ -330,12 +332,13 @@ func runC19(tb report.TB, rep *report.Reporter, c c19Case) {
 				} else {
 					pid = "1"
 				}
-				if res.Code == 0 {
+				completion := args[0] == "__complete" // a completion helper reports failure through its output, not its exit code or a message
+				if res.Code == 0 && !completion {
 					if fail(i, "command-runs-while-locked", fmt.Sprintf("%v exited 0 while pid %s holds the repository:\n%s", args, pid, res.Out)) {
 						return
 					}
 				}
-				if !strings.Contains(res.Out, pid) || !strings.Contains(res.Out, "lock") {
+				if !completion && (!strings.Contains(res.Out, pid) || !strings.Contains(res.Out, "lock")) {
 					if fail(i, "refusal-does-not-name-the-holder", fmt.Sprintf("%v: %q (holder pid %s)", args, res.Out, pid)) {
 						return
 					}
